@@ -4,7 +4,7 @@
    Consequences: setup never fails (no "prepared entry missing" panic), quiescence of the trackers (C11), and the
    basis of C03/C04/C05. *)
 From Cobweb Require Import Machine.
-From CobwebProofs Require Import ListLemmas Closed RunnerInv Frames OnceInv.
+From CobwebProofs Require Import ListLemmas Closed RunnerInv Frames OnceInv OnceRuns.
 Require Import Coq.Sorting.Permutation.
 
 (* ---------- pending commands and what each demands from the trackers ---------- *)
@@ -569,7 +569,7 @@ Proof.
   - intros t0 k w H _. unfold rn_despawn_missing. eapply skeys_evolves; [|exact H].
     eapply evolves_trans; [apply evolves_rview; apply rview_drop_callback|]. eapply evolves_trans; [apply evolves_despawn|]. apply evolves_rview. reflexivity.
   - intros t0 w H. eapply skeys_evolves; [|exact H]. apply evolves_despawn.
-  - intros t0 cb b w H _. exact H.
+  - intros t0 cb b w H _ _. exact H.
   - intros t0 tk w H. unfold once_finish. destruct (alookup t0 (cbs w)); exact H.
   - intros sd t0 r c w _ H. eapply skeys_evolves; [|exact H]. apply evolves_rview. apply rview_body_begin.
   - intros w H. exact H.
@@ -595,17 +595,17 @@ Proof.
   - intros t0 k w H _. unfold rn_despawn_missing. eapply He; [|exact H].
     eapply evolves_trans; [apply evolves_rview; apply rview_drop_callback|]. eapply evolves_trans; [apply evolves_despawn|]. apply evolves_rview. reflexivity.
   - intros t0 w H. eapply He; [apply evolves_despawn|exact H].
-  - intros t0 cb b w H _. exact H.
+  - intros t0 cb b w H _ _. exact H.
   - intros t0 tk w H. unfold once_finish. destruct (alookup t0 (cbs w)); exact H.
   - intros sd t0 r c w _ H. eapply He; [apply evolves_rview; apply rview_body_begin|exact H].
   - intros w H. exact H.
 Qed.
 
-Definition Ubase (w : world) : Prop := storage_alive w /\ skeys w.
-Lemma Ubase_closed : closed P Ubase.
+Definition Ubase0 (w : world) : Prop := storage_alive w /\ skeys w.
+Lemma Ubase0_closed : closed P Ubase0.
 Proof.
   pose proof (sa_closed P) as A. pose proof skeys_closed as B.
-  constructor; unfold Ubase.
+  constructor; unfold Ubase0.
   - intros e w [H1 H2]. split; [apply (c_emit _ _ A)|apply (c_emit _ _ B)]; assumption.
   - intros c w [H1 H2]. split; [apply (c_prim _ _ A)|apply (c_prim _ _ B)]; assumption.
   - intros o a w [H1 H2]. split; [apply (c_act _ _ A)|apply (c_act _ _ B)]; assumption.
@@ -620,11 +620,15 @@ Proof.
   - intros t k w [H1 H2] E. split; [apply (c_dropped _ _ A)|apply (c_dropped _ _ B)]; assumption.
   - intros t k w [H1 H2] E. split; [apply (c_missing _ _ A)|apply (c_missing _ _ B)]; assumption.
   - intros t w [H1 H2]. split; [apply (c_despawn _ _ A)|apply (c_despawn _ _ B)]; assumption.
-  - intros t cb b w [H1 H2] E. split; [apply (c_cbbump _ _ A)|apply (c_cbbump _ _ B)]; assumption.
+  - intros t cb b w [H1 H2] E Eb. split; [apply (c_cbbump _ _ A)|apply (c_cbbump _ _ B)]; assumption.
   - intros t tk w [H1 H2]. split; [apply (c_oncefin _ _ A)|apply (c_oncefin _ _ B)]; assumption.
   - intros sd t r c w HG [H1 H2]. split; [apply (c_body _ _ A)|apply (c_body _ _ B)]; assumption.
   - intros w [H1 H2]. split; [apply (c_clear _ _ A)|apply (c_clear _ _ B)]; assumption.
 Qed.
+(* the context-free part of the invariant: storage on live entities, storage keys spawned, once wrappers run at most once *)
+Definition Ubase (w : world) : Prop := Ubase0 w /\ forall t, OR t w.
+Lemma Ubase_closed : closed P Ubase.
+Proof. apply closed_and; [exact Ubase0_closed|apply closed_forall; intros t; apply OR_closed]. Qed.
 End TicketClosed.
 
 (* ================================================================================================================ *)
@@ -722,8 +726,10 @@ Proof.
   intros Hfl Hn (T & F & O & C & U). rewrite buffer_drop_callback.
   split; [eapply TInv_kview; [apply kview_drop_callback|exact T]|]. split; [eapply Hfl; [apply kview_drop_callback|exact F]|].
   split; [apply O_drop_callback; exact O|]. split; [apply C_drop_callback_gone; assumption|].
-  split; [eapply sa_sview; [apply sview_drop_callback|exact (proj1 U)]|].
-  eapply skeys_evolves; [apply evolves_rview; apply rview_drop_callback|exact (proj2 U)].
+  split; [split|].
+  - eapply sa_sview; [apply sview_drop_callback|exact (proj1 (proj1 U))].
+  - eapply skeys_evolves; [apply evolves_rview; apply rview_drop_callback|exact (proj2 (proj1 U))].
+  - intros t0. eapply OR_stable; [apply cb_stable_drop_callback|exact (proj2 U t0)].
 Qed.
 Lemma buffer_despawn e w : buffer (despawn e w) = buffer w.
 Proof. exact (proj2 (proj2 (proj2 (proj2 (proj2 (kview_proj _ _ (kview_despawn e w))))))). Qed.
@@ -740,7 +746,7 @@ Definition TPre (i : instr) (H : list buffered) (w : world) : Prop :=
   | IRun t su cl idx => TI (mkBuf t su cl :: all) w /\ alookup t (storage w) = Some true
   | ICallback t cl => TF t cl all w /\ alookup t (storage w) = Some false
                       /\ (forall cb, alookup t (cbs w) = Some cb -> cb_once cb <> None -> cb_taken cb = false)
-  | IBody t r c cl => TF t cl all w /\ state_ok_b t r c w = true
+  | IBody t r c cl => TF t cl all w /\ state_ok_b t r c w = true /\ once_ok_b t w = true
   | IExclSteps _ _ _ (CCleanup cl :: r) _ => TW cl all w /\ nocl r
   | IExclSteps _ _ _ pending _ => TI all w /\ nocl pending
   | IReplay t pending kept => TI (buffer w ++ pending ++ kept ++ H) w
@@ -900,7 +906,7 @@ Proof.
     destruct HT2 as (T2 & F2 & O2 & C2 & U2).
     destruct (lookup_storage t w2) eqn:EL.
     + (* dead: drop the callback *)
-      assert (Hnone : alookup t (storage w2) = None) by (apply lookup_dead_storage; [exact (proj1 U2)|exact EL]).
+      assert (Hnone : alookup t (storage w2) = None) by (apply lookup_dead_storage; [exact (proj1 (proj1 U2))|exact EL]).
       assert (HT3 : TPre IGC H (rn_dropped t k w2)).
       { unfold TPre, rn_dropped. apply TX_emit; [exact fl_ok_off|]. change (buffer (emit (EvEnd t k false) (drop_callback t w2))) with (buffer (drop_callback t w2)).
         apply TX_drop_callback_gone; [exact fl_ok_off|exact Hnone|]. exact (conj T2 (conj F2 (conj O2 (conj C2 U2)))). }
@@ -935,20 +941,25 @@ Proof.
     destruct HP as (HT & Hst & Hns). destruct HT as (T & F & O & C & U).
     assert (Hcbs : alookup t (cbs w) <> None) by (apply C; rewrite Hst; discriminate).
     destruct (alookup t (cbs w)) as [cb|] eqn:EC; [|contradiction].
-    assert (Hsp : In t (spawned w)) by (apply (proj2 U); eapply alookup_Some_key; eauto).
-    assert (Hbump : forall bt, TPre (IBody t (cb_runno cb) (cb_captured cb) cl) H (cb_bump t cb bt w)).
-    { intros bt. unfold TPre. split; [|unfold state_ok_b, cb_bump; cbn [cbs set]; rewrite alookup_aupd_same, EC; cbn; rewrite !N.eqb_refl; reflexivity].
+    assert (Hsp : In t (spawned w)) by (apply (proj2 (proj1 U)); eapply alookup_Some_key; eauto).
+    assert (Hbump : forall bt, bump_ok cb bt = true -> TPre (IBody t (cb_runno cb) (cb_captured cb) cl) H (cb_bump t cb bt w)).
+    { intros bt Hbt. unfold TPre. split; [|split].
+      2:{ unfold state_ok_b, cb_bump; cbn [cbs set]; rewrite alookup_aupd_same, EC; cbn; rewrite !N.eqb_refl; reflexivity. }
+      2:{ unfold once_ok_b, cb_bump; cbn [cbs set]; rewrite alookup_aupd_same, EC; cbn [cb_once cb_taken cb_runno].
+          pose proof (proj2 U t cb EC) as Hor. unfold bump_ok in Hbt. destruct (cb_once cb); [|reflexivity].
+          apply andb_true_iff in Hbt. destruct Hbt as [-> Htk]. apply negb_true_iff in Htk. rewrite Htk in Hor. rewrite (Hor ltac:(discriminate)). reflexivity. }
       change (buffer (cb_bump t cb bt w)) with (buffer w).
       split; [tsame T|]. split; [eapply fl_ok_fresh; [|exact F]; reflexivity|]. split; [apply O_cb_bump; [exact O|rewrite Hst; discriminate]|].
       split; [apply (C_cbs_upd t _ w C)|apply (c_cbbump _ _ UC); assumption]. }
     destruct (cb_once cb) as [tk|] eqn:Eonce.
-    + rewrite (Hns cb eq_refl ltac:(rewrite Eonce; discriminate)).
-      apply (Hsub (IBody t (cb_runno cb) (cb_captured cb) cl) H _ _ (ICallback t cl) H (Hbump true)). intros w1 E1 [HT1 _].
+    + pose proof (Hns cb eq_refl ltac:(rewrite Eonce; discriminate)) as Hntk. rewrite Hntk.
+      assert (Hb1 : bump_ok cb true = true) by (unfold bump_ok; rewrite Eonce, Hntk; reflexivity).
+      apply (Hsub (IBody t (cb_runno cb) (cb_captured cb) cl) H _ _ (ICallback t cl) H (Hbump true Hb1)). intros w1 E1 [HT1 _].
       assert (Hsp1 : In t (spawned w1)) by (eapply (exec_closed P _ (Sp_closed P t)); [|exact E1]; exact Hsp).
       assert (Hpre2 : TPre (IApplyList [CRevoke tk]) H (despawn t w1)).
       { unfold TPre. split; [|reflexivity]. rewrite (proj2 (proj2 (proj2 (proj2 (proj2 (kview_proj _ _ (kview_despawn t w1))))))).
         apply TX_despawn; [exact fl_ok_off|exact HT1]. }
-      assert (Hg1 : gone t (despawn t w1)) by (apply gone_despawn_self; [exact Hsp1|exact (proj1 (proj2 (proj2 (proj2 (proj2 HT1)))))]).
+      assert (Hg1 : gone t (despawn t w1)) by (apply gone_despawn_self; [exact Hsp1|exact (proj1 (proj1 (proj2 (proj2 (proj2 (proj2 HT1))))))]).
       apply (Hsub _ H _ _ (ICallback t cl) H Hpre2). intros w2 E2 [HT2 _].
       assert (Hg2 : gone t w2) by (eapply (exec_closed P _ (gone_closed P t)); eauto).
       split; [|right; unfold once_finish; destruct (alookup t (cbs w2)); exact Hg2].
@@ -959,7 +970,8 @@ Proof.
       split; [apply C_once_finish; exact C2|apply (c_oncefin _ _ UC); exact U2].
     + assert (HK0 : Kinv t (cb_bump t cb false w)).
       { split; [exact Hsp|]. intros cb' Hcb'. unfold cb_bump in Hcb'. cbn in Hcb'. rewrite alookup_aupd_same, EC in Hcb'. inversion Hcb'; subst. cbn. exact Eonce. }
-      pose proof (IH (IBody t (cb_runno cb) (cb_captured cb) cl) H _ (Hbump false)) as Hp.
+      assert (Hb0 : bump_ok cb false = true) by (unfold bump_ok; rewrite Eonce; reflexivity).
+      pose proof (IH (IBody t (cb_runno cb) (cb_captured cb) cl) H _ (Hbump false Hb0)) as Hp.
       destruct (exec P f (IBody t (cb_runno cb) (cb_captured cb) cl) (cb_bump t cb false w)) as [w1| |n] eqn:E1; [|exact I|exact Hp].
       split; [exact (proj1 Hp)|]. left. eapply (exec_closed P _ (Kinv_closed P t)); eauto.
 Qed.
@@ -967,9 +979,9 @@ Qed.
 Lemma case_IBody t runno captured cl H w : TPre (IBody t runno captured cl) H w -> TPost (IBody t runno captured cl) H (exec P (S f) (IBody t runno captured cl) w).
 Proof.
   intros HP. pose proof (Ubase_closed P) as UC. cbn [exec].
-    unfold TPre in HP. destruct HP as [HP Hstate]. cbn zeta. set (sd := sys_or_default P t).
+    unfold TPre in HP. destruct HP as (HP & Hstate & Honce). cbn zeta. set (sd := sys_or_default P t).
     pose proof (proj2 (proj1 (proj2 HP))) as Hfresh. unfold fresh_claim in Hfresh.
-    assert (HG : body_guard t runno captured w = true) by (unfold body_guard; rewrite Hfresh, Hstate; reflexivity).
+    assert (HG : body_guard t runno captured w = true) by (unfold body_guard; rewrite Hfresh, Hstate, Honce; reflexivity).
     rewrite HG. cbn [negb].
     assert (HP' : TW cl (buffer w ++ H) w) by (destruct HP as (T & [F _] & R); exact (conj T (conj F R))).
     assert (Hb : TW cl (buffer (body_begin P sd t runno captured w) ++ H) (body_begin P sd t runno captured w)).
@@ -1085,7 +1097,7 @@ Proof.
     rewrite (proj2 (proj2 (proj2 (proj2 (proj2 (kview_proj _ _ (kview_despawn e (w <| gc_chan := r |>)))))))).
     apply TX_despawn; [exact fl_ok_off|]. change (buffer (w <| gc_chan := r |>)) with (buffer w).
     apply (TX_inert flags_off _ w (w <| gc_chan := r |>) fl_ok_off); [reflexivity|reflexivity| |exact HP].
-    destruct HP as (_ & _ & _ & _ & [U1 U2]). split; [intros x Hx; apply U1; exact Hx|exact U2].
+    destruct HP as (_ & _ & _ & _ & [[U1 U2] U3]). split; [split; [intros x Hx; apply U1; exact Hx|exact U2]|exact U3].
 Qed.
 
 Lemma case_IPoll  H w : TPre IPoll H w -> TPost IPoll H (exec P (S f) IPoll w).
